@@ -41,7 +41,8 @@ def run_C17(ctx):
         for i, l in enumerate(h):
             if l.startswith("text "):
                 kind = c.ops[i]
-                by_type.setdefault((c.family, c.mode, kind), []).append((l[5:], c, i))
+                # the text may (and does) name the cipher *type*: real ciphers of the thorough tier are types of their own
+                by_type.setdefault((c.family, c.mode + "<" + REAL_NAMES.get(c.w, "toy") + ">", kind), []).append((l[5:], c, i))
     ctx.stats["types_with_debug_text"] = len(by_type)
     for (fam, mode, kind), lst in sorted(by_type.items()):
         texts = {}
@@ -52,7 +53,7 @@ def run_C17(ctx):
             if fam == "stream" and len(stripped) == 1:
                 sig = "StreamCipherCoreWrapper/buffer_data"
             else:
-                sig = f"{fam}/{mode}/other"
+                sig = f"{fam}/{mode.split('<')[0]}/other"
             (t1, (c1, i1)), (t2, (c2, i2)) = list(texts.items())[:2]
             ctx.violation("predicate", f"{kind} text of {fam}/{mode} depends on key/IV/position/data: {t1!r} vs {t2!r}",
                           [c1, c2], {"H_a": res["H"][c1.cid], "H_b": res["H"][c2.cid]}, sig=sig)
